@@ -49,9 +49,17 @@ func WithDeadline(parent context.Context, _ time.Time) (context.Context, context
 	return WithCancel(parent)
 }
 
+// OnCancel, when set, is called at the moment a context is cancelled (inside
+// the cancelling operation, atomically with respect to all other threads).
+// Scenarios use it to take measurements "at the stop".
+var OnCancel func()
+
 func (c *Ctx) cancelNow(err error, vc vclock) {
 	if c.err != nil {
 		return
+	}
+	if OnCancel != nil {
+		OnCancel()
 	}
 	c.err = err
 	c.vc = vc
